@@ -395,9 +395,17 @@ fn scenario<H: ArchH>(rep: &mut Report, p: &mut Prng, arch: Arch, id: u64) {
         funcs.push(f);
     }
     let any_pac = funcs.iter().any(|f| f.pac);
-    let mask = if any_pac || p.chance(1, 3) { u64::MAX >> 16 } else { u64::MAX };
+    let mask = if arch == Arch::A64 && (any_pac || p.chance(1, 3)) { u64::MAX >> 16 } else { u64::MAX };
     let base_avma: u64 = *p.pick(&[0x1_0000_0000u64, 0x7fff_2000_0000, 0x1_0400_0000]);
     let base_svma: u64 = *p.pick(&[0x1_0000_0000u64, 0]);
+    // kernel-style placements: the load slide does not fit in an i64 (x86-64 only: arm64 return
+    // addresses go through the 40-bit pointer authentication mask)
+    let (base_avma, base_svma) = match (arch, p.below(8)) {
+        (Arch::X64, 0) => (0xffff_ff80_0020_0000u64, base_svma),
+        (Arch::X64, 1) => (0x40_0000u64, 0xffff_ff80_0020_0000u64),
+        (Arch::A64, 0) if mask == u64::MAX => (0xffff_fe00_0700_0000u64, base_svma),
+        _ => (base_avma, base_svma),
+    };
     let stack_top: u64 = *p.pick(&[0x7ffe_e000_0000u64, 0x16_f000_0000, 0x3_0000_8000]);
     let text_avma = base_avma + text_off;
     // unwind info entries: one per function, optionally merging neighbours with equal opcodes;
@@ -492,6 +500,26 @@ fn scenario<H: ArchH>(rep: &mut Report, p: &mut Prng, arch: Arch, id: u64) {
     op!(Op::NewCache { c: "c1".into() });
     op!(Op::Mod { m: "m0".into(), spec: m.clone() });
     op!(Op::Add { u: "u0".into(), m: "m0".into() });
+    // ------------------------------------------------------------ the same module elsewhere
+    // (C08: mapped range and base address moved together, stated addresses unchanged, stack
+    // placed elsewhere - frames must differ by exactly the shifts)
+    let base_b: u64 = if arch == Arch::X64 || mask == u64::MAX {
+        *p.pick(&[0xffff_ff80_0020_0000u64, 0xffff_8000_4000_0000, 0x40_0000, 0x7f55_0000_0000, 0x1_0000_0000])
+    } else {
+        *p.pick(&[0x40_0000u64, 0x7f55_0000_0000, 0x1_0000_0000, 0x2_0000_4000])
+    };
+    let code_delta = base_b.wrapping_sub(base_avma);
+    let stack_top_b: u64 = *p.pick(&[0x7ffe_e000_0000u64, 0x16_f000_0000, 0x3_0000_8000, 0x7000_0010_0000]);
+    let mut m_b = m.clone();
+    m_b.base_avma = base_b;
+    m_b.start = m.start.wrapping_add(code_delta);
+    m_b.end = m.end.wrapping_add(code_delta);
+    let mut wb: World<H> = World::new();
+    let mut lines_b = vec![wb.init_line(0, n_slots)];
+    for o in [Op::New { u: "u0".into() }, Op::NewCache { c: "c0".into() }, Op::Mod { m: "m0".into(), spec: m_b.clone() }, Op::Add { u: "u0".into(), m: "m0".into() }] {
+        lines_b.push(o.line(lines_b.len() as u64));
+        wb.exec(&o);
+    }
     // ------------------------------------------------------------ ground truth walks
     let inner = &funcs[chain.last().unwrap().0];
     for stop in 0..inner.insns.len() {
@@ -522,9 +550,51 @@ fn scenario<H: ArchH>(rep: &mut Report, p: &mut Prng, arch: Arch, id: u64) {
                 key: format!("macho-{}-walk-differs-from-true-chain", arch.name()),
                 what: format!("the true call chain is {} (innermost function shape {:?}, stopped before instruction {} of {})", want.join(","), inner.shape, stop, inner.insns.len()),
                 case: lines.join("\n"),
-                impl_out: got,
+                impl_out: got.clone(),
                 model_out: String::new(),
             });
+        }
+        // the relocated twin, stopped at the same point
+        if code_delta != 0 {
+            let mut g = Prng::new(id * 991 + stop as u64);
+            let truth_b = simulate(arch, &funcs, &ch, text_avma.wrapping_add(code_delta), stack_top_b, &mut g);
+            let mut mem_b = MemDesc::new(mem.default.clone());
+            for (a, v) in &truth_b.stack {
+                mem_b.entries.push((*a, Some(*v)));
+            }
+            mem_b.cut = Some(stack_top_b + 8);
+            let pc_b = truth_b.frames[0].addr & mask;
+            let regs_b = regs_for(arch, mask, pc_b, &truth_b.frames[0].mach, true);
+            let ob = Op::Iter { u: "u0".into(), c: "c0".into(), pc: pc_b, regs: regs_b, mem: mem_b, extra: 0, max: 64 };
+            lines_b.push(ob.line(lines_b.len() as u64));
+            let (ans_b, _) = wb.exec(&ob);
+            let got_b = ans_b.split(' ').next().unwrap_or("").trim_start_matches("items=").to_string();
+            let shifted: Vec<String> = got
+                .split(',')
+                .map(|it| match it.split_once(':') {
+                    Some((k, h)) => match u64::from_str_radix(h, 16) {
+                        Ok(v) => format!("{k}:{}", hex(v.wrapping_add(code_delta) & mask)),
+                        Err(_) => it.to_string(),
+                    },
+                    None => it.to_string(),
+                })
+                .collect();
+            rep.count(&format!("{} macho relocation twins", arch.name()));
+            if shifted.join(",") != got_b {
+                rep.add_finding(Finding {
+                    props: vec!["C08".into()],
+                    kind: "oracle".into(),
+                    key: format!("macho-{}-relocated-module-unwinds-differently", arch.name()),
+                    what: format!(
+                        "the same Mach-O module and thread state, mapped {code_delta:#x} higher (base {base_b:#x} instead of {base_avma:#x}, stack top {stack_top_b:#x} instead of {stack_top:#x}): frames {got} should become {} but are {got_b}; twin history:\n{}",
+                        shifted.join(","),
+                        lines_b.join("\n")
+                    ),
+                    case: lines.join("\n"),
+                    impl_out: got_b,
+                    model_out: String::new(),
+                });
+            }
         }
         // single steps with the true registers: caller's sp and fp after each step
         for i in 0..truth.frames.len() {
@@ -682,6 +752,11 @@ pub fn gen_random_macho(p: &mut Prng, arch: Arch) -> (ModSpec, Vec<u64>) {
     }
     let base_avma: u64 = *p.pick(&[0x1_0000_0000u64, 0x7fff_2000_0000, 0x40_0000]);
     let base_svma: u64 = *p.pick(&[0x1_0000_0000u64, 0, 0x1000]);
+    let (base_avma, base_svma) = match (arch, p.below(8)) {
+        (Arch::X64, 0) => (0xffff_ff80_0020_0000u64, base_svma),
+        (Arch::X64, 1) => (0x40_0000u64, 0xffff_ff80_0020_0000u64),
+        _ => (base_avma, base_svma),
+    };
     let mut fdes: Vec<FdeSpec> = Vec::new();
     for f in &funcs {
         if p.chance(1, 2) {
